@@ -2,7 +2,7 @@ SPEC = {
     "id": "C03",
     "props_module": "NDB.Props.C03",
     "corr_modules": ["NDB.Corr.C03"],
-    "theorems": ["C03_quiescent_consistent", "C03_stable_without_compaction", "C03_torn_refuted",
+    "theorems": ["C03_quiescent_consistent", "C03_stable_without_compaction", "C03_quiescent_snapshot_schedules", "C03_torn_refuted",
                  "C03_torn_compaction_refuted", "C03_inplace_refuted"],
     "allowed_axioms": [],
     "harness_pkg": "hx_conc",
@@ -24,8 +24,9 @@ SPEC = {
         "one writer at a time (the engine's write_lock, see C09/C35); any number of readers",
         "the positive theorems hold on the sub-domains stated in Props/C03.v (acquisition with no writer step in flight; no compaction "
         "sink step during the snapshot's lifetime); outside them the property is refuted (known findings K-C03-torn, K-C03-inplace)",
-        "C03_quiescent_consistent is stated over whole-operation histories (exec_steps), i.e. for schedules in which writer operations and "
-        "acquisitions are not interleaved; it is not lifted to a classifier over arbitrary schedules inside Coq (the harness predicate is)",
+        "schedule-level theorem C03_quiescent_snapshot_schedules: acquisition after j whole writer operations run alone, then EVERY "
+        "continuation schedule, no compaction among the remaining operations; a quiescent acquisition in the middle of an arbitrary "
+        "earlier interleaving with other readers is covered by the harness predicate but not by a Coq classifier over all schedules",
     ],
     "manifest": {
         "category": "proof",
@@ -35,7 +36,7 @@ SPEC = {
                 "reads 5, 5, 6). Witness schedules by vm_compute, each reproduced on the real engine through cfg-guarded schedule points. "
                 "Proved for all histories: a snapshot acquired while no writer operation is in flight shows exactly the committed state "
                 "(refinement of runs/segments/heap to the abstract graph under every sequence of commits and compactions); proved for all "
-                "schedules: while no compaction sink step remains, a held snapshot's view never changes. Correspondence: all 495 "
+                "schedules: while no compaction sink step remains, a held snapshot's view never changes; combined at schedule level (quiescent acquisition, then every schedule without compaction: every observation is the committed state). Correspondence: all 495 "
                 "interleavings of one commit with one acquisition (thorough; every 4th in quick), sampled compaction interleavings, "
                 "generated histories with 1-2 readers; every observed view compared with the model in Coq.",
         "design_ref": "DESIGN.md §5 C03",
